@@ -21,6 +21,7 @@ class LCDChipSnapshot:
     vram: Tuple[Tuple[int, ...], ...]
     instruction_count: int
     data_write_count: int
+    busy: bool = False
 
 
 @dataclass(frozen=True)
@@ -60,6 +61,7 @@ def _snapshot_from_chips(chips: Sequence[HD61202]) -> LCDSnapshot:
                 vram=tuple(tuple(row) for row in chip.vram),
                 instruction_count=chip.instruction_count,
                 data_write_count=chip.data_write_count,
+                busy=chip.state.busy,
             )
         )
     return LCDSnapshot(tuple(capture))
